@@ -199,6 +199,7 @@ def run_function_paths(prog, reg, con, case_assign, max_paths=400, quick_ms=300)
     """Symbolically execute the real function body along every path; return PathResults."""
     fi = prog.func(con.name)
     results = []
+    reg.context = getattr(con, 'context', None)
     if fi is None:
         pr = PathResult()
         pr.status = 'unsupported'
